@@ -124,8 +124,8 @@ func (n *vkUDPNet) observe() string {
 type vkDgram struct {
 	Kind   string `json:"k"` // hit miss malf qr notify panic
 	Client int    `json:"c"`
-	// Bad: the datagram arrived from source port 0, so the kernel refuses every send to
-	// it (EINVAL) — a send fault in the middle of a batch. The other clients' replies must
+	// Bad: the datagram claims a class-E source address (240.0.0.1), so the kernel refuses every
+	// send to it (EINVAL) — a send fault in the middle of a batch. (A source PORT of 0, the earlier trigger, is dropped at ingress since /repo 447d345.) The other clients' replies must
 	// still go out exactly once and nothing may leak.
 	Bad bool `json:"bad,omitempty"`
 }
@@ -142,7 +142,7 @@ func (c vkUDPCase) String() string {
 	for _, d := range c.Dgrams {
 		bad := ""
 		if d.Bad {
-			bad = "!port0"
+			bad = "!classE"
 		}
 		s = append(s, fmt.Sprintf("%s@%d%s", d.Kind, d.Client, bad))
 	}
@@ -242,12 +242,11 @@ func (u *vkUDPRun) step(op string) string {
 			}
 			ap := u.net.clients[u.dg[d].Client].addr
 			binary.NativeEndian.PutUint16(sa[0:2], unix.AF_INET)
-			port := ap.Port()
-			if u.dg[d].Bad {
-				port = 0
-			}
-			binary.BigEndian.PutUint16(sa[2:4], port)
+			binary.BigEndian.PutUint16(sa[2:4], ap.Port())
 			a4 := ap.Addr().As4()
+			if u.dg[d].Bad {
+				a4 = [4]byte{240, 0, 0, 1}
+			}
 			copy(sa[4:8], a4[:])
 			h.hdr.Namelen = unix.SizeofSockaddrInet4
 		}
@@ -332,7 +331,7 @@ func (u *vkUDPRun) judge(final bool) string {
 			for d := range u.dg {
 				f := u.frames[d]
 				if u.dg[d].Client != ci || u.status[d] != "admitted" || f.Expect == "none" || f.Expect == "panic" || u.dg[d].Bad {
-					continue // (a reply to port 0 cannot be delivered)
+					continue // (a reply to the refused destination cannot be delivered)
 				}
 				if answered[d] != 1 {
 					return fmt.Sprintf("client %s: admitted %s query (id %#04x) received %d replies", cl.tag, f.Kind, f.ID, answered[d])
@@ -568,7 +567,7 @@ func vkUDPExplore(c *vkit.Ctx, unit string, minClients int) {
 		rec(nil, 3)
 	}
 	kinds = all
-	// refused-destination family: one datagram of a 2-3 datagram burst came from port 0
+	// refused-destination family: one datagram of a 2-3 datagram burst came from an address the kernel refuses to send to
 	{
 		var base [][]vkDgram
 		seqs, base = base, seqs
